@@ -15,7 +15,14 @@ STRATS = ["filter", "fixedinterval", "fixedpoint"]
 
 
 def make_field(cfg):
-    return PolyField(cfg["d"], cfg["order"], cfg.get("degree", 2), with_time=True)
+    if cfg.get("lin") == "implicit":
+        # implicit residual  r(u, .., u^(k), t) = u^(k) + P(u, .., u^(k), t): P also depends on the highest derivative
+        field = PolyField(cfg["d"], cfg["order"] + 1, cfg.get("degree", 2), with_time=True)
+        field.implicit, field.ode_order = True, cfg["order"]
+        return field
+    field = PolyField(cfg["d"], cfg["order"], cfg.get("degree", 2), with_time=True)
+    field.implicit, field.ode_order = False, cfg["order"]
+    return field
 
 
 def make_ode(field, C, jac="materialize"):
@@ -25,6 +32,20 @@ def make_ode(field, C, jac="materialize"):
         jacobian = probdiffeq.jacobian_monte_carlo_fwd()
     else:
         jacobian = probdiffeq.jacobian_monte_carlo_rev()
+    if getattr(field, "implicit", False):
+        if field.ode_order == 1:
+
+            @functools.partial(probdiffeq.residual_velocity, jacobian=jacobian)
+            def res(u, du, /, *, t):
+                return du + field.jax_eval(C, [u, du], t)
+
+        else:
+
+            @functools.partial(probdiffeq.residual_acceleration, jacobian=jacobian)
+            def res(u, du, ddu, /, *, t):
+                return ddu + field.jax_eval(C, [u, du, ddu], t)
+
+        return res
     if field.order == 1:
 
         @functools.partial(probdiffeq.ode, jacobian=jacobian)
@@ -55,6 +76,8 @@ def make_constraint(ssm, cfg, vf):
         return ssm.constraint_ode_ts1(vf)
     if cfg["lin"] == "residual":
         return ssm.constraint_residual(probdiffeq.residual_from_ode(vf))
+    if cfg["lin"] == "implicit":
+        return ssm.constraint_residual(vf)  # make_ode returned a JetResidual
     raise ValueError(cfg["lin"])
 
 
